@@ -1,8 +1,10 @@
 """C15 — Text output is faithful and parseable."""
-from world import amounts
+from fractions import Fraction
+
+from world import amounts, enc_f64, f64_from_bits, f64_bits, f64_next, frac_to_f64
 
 ID = "C15"
-LEAN_MODULES = ["QtyModel.Props.C15", "QtyModel.Props.C15Dec", "QtyModel.Props.TieFmt"]
+LEAN_MODULES = ["QtyModel.Props.C15", "QtyModel.Props.C15Dec", "QtyModel.Props.C15F64", "QtyModel.Props.TieFmt"]
 HARNESS_GROUPS = ('g_rate',)
 RATE_TYPES = ["Length", "Duration", "Mass", "DataVolume", "Temperature", "AmountT", "S:Su", "S:Sn", "S:Sa"]
 FILLS = ["n", "s", "z", "u", "e", "w"]
@@ -57,6 +59,11 @@ def gen(w, rng, tier):
             ops.append(("fmtu:pad", f"fmtu {t['name']} {i} {fl}{al}00 {nsym + 1 + rng.below(5)} -"))
             ops.append(("fmtu:trunc", f"fmtu {t['name']} {i} nn00 - {max(0, nsym - 1)}"))
             ops.append(("fmtu:pad+trunc", f"fmtu {t['name']} {i} {rng.choice(FILLS)}{rng.choice(ALIGNS[1:])}00 {nsym + 2} {max(0, nsym - 1)}"))
+    if w.be == "f64":
+        # the model of the amount type's own Display (shortest round-trip digits, exact expansion rounded
+        # half-even for a precision) against std, on the classes where digit generation is delicate
+        for cls, x in ftxt_values(rng, 4000 if tier == "quick" else 80000):
+            ops.append((f"ftxt:{cls}", f"ftxt {enc_f64(x)} {rng.choice(FTXT_PRECS)}"))
     types = [x for x in RATE_TYPES if x in w.by_name]
     for tq in types:
         for pq in types:
@@ -69,5 +76,49 @@ def gen(w, rng, tier):
     return ops
 
 
+FTXT_PRECS = ["-", "-", "-", "0", "1", "2", "3", "6", "15", "17", "18", "19", "20", "25"]
+
+
+def ftxt_values(rng, n):
+    """binary64 values for the amount-text model: (class, double)"""
+    out = []
+    for _ in range(n):
+        k = rng.below(12)
+        if k == 0:      # any finite bit pattern
+            b = rng.below(1 << 64)
+            if (b >> 52) & 0x7ff == 0x7ff:
+                b &= ~(1 << 62)
+            out.append(("bits", f64_from_bits(b)))
+        elif k == 1:    # powers of two and their neighbours (the lower gap is half as wide)
+            x = 2.0 ** (rng.below(2098) - 1074)
+            out.append(("pow2", [x, f64_next(x), f64_next(x, False)][rng.below(3)]))
+        elif k == 2:    # d * 10^e and neighbours
+            x = frac_to_f64(Fraction(rng.below(9) + 1) * Fraction(10) ** (rng.below(633) - 324))
+            out.append(("pow10", [x, f64_next(x), f64_next(x, False)][rng.below(3)]))
+        elif k == 3:    # short decimals
+            out.append(("short-dec", frac_to_f64(Fraction(rng.below(10 ** (1 + rng.below(9))), 10 ** rng.below(9)))))
+        elif k == 4:    # exact ties of a fixed precision: odd / 2^j
+            j = 1 + rng.below(12)
+            out.append(("tie", (2 * rng.below(1 << 20) + 1) / float(1 << j)))
+        elif k == 5:    # decimal ...5 half-way cases (not exact in binary: must round by the exact binary value)
+            j = rng.below(8)
+            out.append(("dec-half", frac_to_f64(Fraction(10 * rng.below(10 ** 6) + 5, 10 ** (j + 1)))))
+        elif k == 6:    # carries: 9.99...
+            j = 1 + rng.below(17)
+            out.append(("carry", frac_to_f64(Fraction(10 ** j - 1, 10 ** (j - 1 - rng.below(j))))))
+        elif k == 7:    # integers up to 2^70
+            out.append(("int", float(rng.below(1 << (1 + rng.below(70))))))
+        elif k == 8:    # 1e21 .. 1e23 (no exponent notation in Display)
+            out.append(("e21-e23", frac_to_f64(Fraction(rng.below(9000) + 1000, 1000) * Fraction(10) ** (21 + rng.below(3)))))
+        elif k == 9:    # subnormals
+            out.append(("subnormal", f64_from_bits(rng.below(1 << 52))))
+        elif k == 10:   # moderate range, full mantissa
+            out.append(("moderate", frac_to_f64(Fraction(rng.below(1 << 53) + 1, 1 << rng.below(80)))))
+        else:
+            out.append(("special", [0.0, -0.0, float("inf"), float("-inf"), float("nan"), 5e-324, 1.7976931348623157e308,
+                                    2.2250738585072014e-308, 0.1, 1 / 3, 1e23, 9007199254740992.0][rng.below(12)]))
+    return [(c, -x if (x == x and rng.chance(1, 4)) else x) for c, x in out]
+
+
 def nontrivial(c):
-    return "wTrue" in c.label or "pTrue" in c.label or "nonascii" in c.label or c.label.startswith("fmtu") or c.label == "ratefmt" or c.label.startswith("fmtrt")
+    return "wTrue" in c.label or "pTrue" in c.label or "nonascii" in c.label or c.label.startswith("fmtu") or c.label.startswith("ftxt") or c.label == "ratefmt" or c.label.startswith("fmtrt")
